@@ -138,3 +138,44 @@ Proof.
   intros Hwf Hs Hn Hcl. rewrite try_response_complete by assumption.
   apply deliver_without_content_length. exact Hcl.
 Qed.
+
+(** ** The known class is exact: on every member the truncated head is handed to the body-framing
+    step as if it were complete, with [len p] bytes consumed and a synthetic "connection: close". *)
+Definition truncated_response (h : resp_head) (p : bytes) : response :=
+  {| rs_version := rh_version h; rs_status := rh_status h;
+     rs_headers := hm_insert (hm_of_list (until_empty_value (headers_of (complete_fields h p))))
+                             (s2b "connection") (s2b "close") |}.
+
+Theorem try_response_known c h p x :
+  wf_resp_head h -> (List.length (rh_fields h) <= LIMIT)%nat ->
+  render_response_head h = p ++ x -> x <> [] -> KnownClass h p ->
+  call_try_response c p = deliver c (len p) (truncated_response h p).
+Proof.
+  intros Hwf Hn Hp Hx [Hr Hl]. unfold call_try_response. rewrite limit_eq.
+  rewrite (response_prefix LIMIT h p x Hwf Hn Hp Hx). cbn [bind].
+  assert (Hc : (List.length (complete_fields h p) <= LIMIT)%nat).
+  { pose proof (complete_fields_length h p). lia. }
+  destruct (partial_response_sound_strong LIMIT h p x Hwf Hp Hc) as [[_ He]|H].
+  - unfold location_seen in Hl. rewrite He in Hl. cbn in Hl. discriminate.
+  - rewrite H. cbn [bind]. cbn [partial_response_of rs_status rs_headers rs_version].
+    rewrite hm_contains_of_list. fold (location_seen h p). rewrite Hr, Hl. cbn [andb bind rs_status].
+    destruct (N.eqb_spec (rh_status h) 100) as [E|_].
+    + rewrite E in Hr. vm_compute in Hr. discriminate.
+    + reflexivity.
+Qed.
+
+Lemma deliver_not_none c used r c' : deliver c used r <> Ok (c', None).
+Proof.
+  unfold deliver.
+  destruct (match hm_get (rs_headers r) (s2b "content-length") with
+            | Some v => negb (is_text v) | None => false end); [discriminate|].
+  destruct (for_response _ _ _ _ _ _); cbn [bind]; discriminate.
+Qed.
+
+Corollary try_response_known_fails c h p x c' :
+  wf_resp_head h -> (List.length (rh_fields h) <= LIMIT)%nat ->
+  render_response_head h = p ++ x -> x <> [] -> KnownClass h p ->
+  call_try_response c p <> Ok (c', None).
+Proof.
+  intros Hwf Hn Hp Hx Hk. rewrite (try_response_known c h p x Hwf Hn Hp Hx Hk). apply deliver_not_none.
+Qed.
